@@ -131,6 +131,18 @@ def check_covariance(case):
     lam = float(np.linalg.eigvalsh((out + out.T) / 2.0).min())
     if not lam >= -1e-12 * scale:
         raise Fail("returned covariance is not positive semi-definite", observed={"vcv": out, "min_eig": lam})
+    # the way back: the point AND the covariance the first call returned (symmetric to rounding only, numpy-typed - whatever the
+    # library hands out) go into the call with the negated set; that call must again return J Q J^T of what it was given
+    back = tf.conform7(got[0], got[1], got[2], -tr, out)
+    if not is_seq(back, 4) or back[3] is None or getattr(back[3], "shape", None) != (3, 3):
+        raise Fail("the negated set, fed with the point and covariance of the forward call, returned no 3x3 covariance", observed=repr(back))
+    pn = tuple(-v for v in p)
+    want2 = H.propagate(pn, sd, [float(got[0]), float(got[1]), float(got[2])], np.array(out, dtype=float))
+    rel2 = TR.fro(np.asarray(back[3], dtype=float) - want2) / (TR.fro(want2) + 1e-300)
+    metric("chained_cov_rel_err", rel2)
+    if not rel2 <= 1e-9:
+        raise Fail("a covariance returned by conform7 and fed into the next call is not propagated as J Q J^T (relative Frobenius > 1e-9)",
+                   expected=want2, observed={"vcv": back[3], "rel": rel2}, bucket="chained covariance")
 
 
 # ------------------------------------------------------------------------------------------------ generators
